@@ -1885,21 +1885,15 @@ class _GroupElem(ABC):
             return idx
 
         elif dim == 3:
-            surfaces = self.surfaces
             coord = self.coord[connect[elem]]
 
-            if self.elemType.startswith("PRISM"):
-                surfaces = np.array(  # type: ignore [type-var]
-                    [
-                        surfaces[0, :],  # type: ignore [call-overload]
-                        surfaces[1, :],  # type: ignore [call-overload]
-                        surfaces[2, :],  # type: ignore [call-overload]
-                        surfaces[3, :-1],  # type: ignore [call-overload]
-                        surfaces[4, :-1],  # type: ignore [call-overload]
-                    ],
-                    dtype=object,
-                )
-            Nface = surfaces.shape[0]  # type: ignore [attr-defined]
+            # contour of each face without the closing repetitions of its first node
+            # (the triangular faces of the prisms are padded to the width of the quadrangles)
+            surfaces = [list(surface) for surface in self.surfaces]
+            for surface in surfaces:
+                while surface[-1] == surface[0]:
+                    surface.pop()
+            Nface = len(surfaces)
 
             p0_f = [surface[0] for surface in surfaces]
             p1_f = [surface[1] for surface in surfaces]
@@ -1910,6 +1904,11 @@ class _GroupElem(ABC):
             j_f = Normalize(coord[p2_f] - coord[p0_f])
 
             n_f = Normalize(np.cross(i_f, j_f, 1, 1))
+
+            # make the normals point outward whatever the orientation of the element
+            # (mirrored meshes): the centroid of a convex element is on the inner side
+            inward_f = np.einsum("fi,fi->f", coord.mean(0) - coord[p0_f], n_f) > 0
+            n_f[inward_f] *= -1
 
             coordinates_n_i = coordinates_n[:, np.newaxis].repeat(Nface, 1)
 
